@@ -105,11 +105,11 @@ Section Proofs.
       destruct (nth_error cols j) as [[g|c]|] eqn:En; try discriminate.
       + apply andb_true_iff in Hc as [Hgf Hint]. apply String.eqb_eq in Hgf. subst g.
         rewrite (nth_encode _ _ _ _ En). simpl. f_equal.
-        destruct (pe_int pe); auto. simpl in Hint. apply rint_r32. apply Hty. exact Hint.
+        destruct (pe_int pe); [|reflexivity]. simpl in Hint. apply rint_r32. apply Hty. exact Hint.
       + apply andb_true_iff in Hc as [Hc Hint]. apply andb_true_iff in Hc as [Hns Hd].
         apply negb_true_iff in Hns. apply ocst_eqb_eq in Hd.
         rewrite (nth_encode _ _ _ _ En). simpl. rewrite (Hdef f c Hns Hd), r32_cst. f_equal.
-        destruct (pe_int pe); auto. simpl in Hint. apply rint_cst. intro E. subst c. discriminate.
+        destruct (pe_int pe); [|reflexivity]. simpl in Hint. apply rint_cst. intro E. subst c. discriminate.
     - apply andb_true_iff in Hok as [Hns Hd]. apply negb_true_iff in Hns.
       destruct (sem_default f) as [c|] eqn:Ed.
       + apply dflt_eqb_eq in Hd. rewrite Hd. simpl. rewrite (Hdef f c Hns Ed), r32_cst. reflexivity.
@@ -135,7 +135,7 @@ Section Proofs.
   Qed.
 
   Lemma all_some_map {A B} (g : A -> option B) (h : A -> B) l :
-    (forall x, In x l -> g x = Some (h x)) -> all_some F (map g l) = Some (map h l).
+    (forall x, In x l -> g x = Some (h x)) -> all_some (map g l) = Some (map h l).
   Proof.
     induction l as [|x t IH]; simpl; auto. intro H. rewrite (H x (or_introl eq_refl)), IH; auto.
   Qed.
@@ -172,7 +172,7 @@ Section Proofs.
     induction rows as [|[v fields] t IH]; intro Hwf.
     - exists []. simpl. auto.
     - inversion Hwf as [|? ? Hr Ht]; subst. destruct (IH Ht) as [cells [Hw [Hlen Hd]]].
-      destruct Hr as [cols [Hc [Hty Hdef]]]. simpl in Hc.
+      destruct Hr as [cols [Hc [Hty Hdef]]]. simpl in Hc, Hty, Hdef.
       exists (encode_row cols fields :: cells). unfold H5.write_rows in *. simpl. rewrite Hc, Hw.
       split; [reflexivity|]. split; [simpl; congruence|]. intro i. simpl.
       destruct (cols_of_In _ _ _ Hc) as [w [Hinw Hwc]]. specialize (Hvs w Hinw). rewrite Hwc in Hvs.
@@ -238,57 +238,67 @@ Section Proofs.
 
   (* the order of the rows a loaded construct presents, in terms of the decoded rows *)
   Theorem rebuild_order kind inst cols l tagged :
-    In kind ["population"; "projection"; "electrical"; "continuous"; "inputlist"] ->
+    In kind table_kinds ->
     (kind = "projection" -> cols = false -> forall s, In s l -> unitw kind s = true /\ zerod kind s = true) ->
     rebuild kind inst cols l = Some tagged ->
     sem_rows kind (doc_order F (variants_of kind) tagged) = sem_rows kind l.
   Proof.
     intros Hk Hproj Hr. unfold H5.rebuild in Hr.
-    simpl in Hk. destruct Hk as [K|[K|[K|[K|[K|[]]]]]]; subst kind.
+    unfold table_kinds in Hk. simpl in Hk. destruct Hk as [K|[K|[K|[K|[K|[]]]]]]; subst kind.
     - (* population *)
-      destruct (rebuild_with_all _ "Instance" l tagged) as [Ha _]; auto.
+      assert (H1 : forall s, In s l -> classify "population" inst cols s = Some "Instance") by (intros; reflexivity).
+      destruct (rebuild_with_all _ "Instance" l tagged H1 Hr) as [Ha _].
       unfold H5.sem_rows, doc_order. simpl. rewrite Ha, app_nil_r. reflexivity.
     - (* chemical projection: one list after a load *)
       unfold H5.sem_rows, doc_order. simpl. destruct cols.
-      + destruct (rebuild_with_all _ "ConnectionWD" l tagged) as [Ha Ho]; auto.
-        rewrite Ha, (Ho "Connection"); [reflexivity|discriminate].
-      + destruct (rebuild_with_all _ "Connection" l tagged) as [Ha Ho]; auto.
-        * intros s Hs. destruct (Hproj eq_refl eq_refl s Hs) as [Hu Hz].
-          unfold H5.classify, classify_b. simpl. rewrite Hu, Hz. reflexivity.
-        * rewrite Ha, (Ho "ConnectionWD"); [apply app_nil_r|discriminate].
+      + assert (H1 : forall s, In s l -> classify "projection" inst true s = Some "ConnectionWD") by (intros; reflexivity).
+        destruct (rebuild_with_all _ "ConnectionWD" l tagged H1 Hr) as [Ha Ho].
+        rewrite Ha, (Ho "Connection"); [simpl; rewrite app_nil_r; reflexivity|discriminate].
+      + assert (H1 : forall s, In s l -> classify "projection" inst false s = Some "Connection").
+        { intros s Hs. destruct (Hproj eq_refl eq_refl s Hs) as [Hu Hz].
+          unfold H5.classify, classify_b. simpl. rewrite Hu, Hz. reflexivity. }
+        destruct (rebuild_with_all _ "Connection" l tagged H1 Hr) as [Ha Ho].
+        rewrite Ha, (Ho "ConnectionWD"); [rewrite !app_nil_r; reflexivity|discriminate].
     - (* electrical *)
       unfold H5.sem_rows, doc_order. simpl. destruct inst.
-      + destruct (rebuild_with_split _ (unitw "electrical") "ElectricalConnectionInstance" "ElectricalConnectionInstanceW"
-                    ltac:(discriminate) l tagged) as [Ha [Hb Ho]]; auto.
-        * intros s _. unfold H5.classify, classify_b. simpl. destruct (unitw "electrical" s); reflexivity.
-        * rewrite Ha, Hb, (Ho "ElectricalConnection"); try discriminate. simpl. rewrite app_nil_r.
-          apply (canon_canon "electrical").
+      + assert (H1 : forall s, In s l -> classify "electrical" true cols s
+                       = Some (if unitw "electrical" s then "ElectricalConnectionInstance" else "ElectricalConnectionInstanceW")).
+        { intros s _. unfold H5.classify, classify_b. simpl. destruct (unitw "electrical" s); reflexivity. }
+        destruct (rebuild_with_split _ (unitw "electrical") "ElectricalConnectionInstance" "ElectricalConnectionInstanceW"
+                    ltac:(discriminate) l tagged H1 Hr) as [Ha [Hb Ho]].
+        rewrite Ha, Hb, (Ho "ElectricalConnection"); try discriminate. simpl. rewrite app_nil_r.
+        apply (canon_canon "electrical").
       + assert (Hall : forall s, In s l -> unitw "electrical" s = true).
         { intros s Hs. pose proof (rebuild_with_In _ _ _ Hr s Hs) as Hn.
           unfold H5.classify, classify_b in Hn. simpl in Hn. destruct (unitw "electrical" s); congruence. }
-        destruct (rebuild_with_all _ "ElectricalConnection" l tagged) as [Ha Ho]; auto.
-        * intros s Hs. unfold H5.classify, classify_b. simpl. rewrite (Hall s Hs). reflexivity.
-        * rewrite Ha, (Ho "ElectricalConnectionInstance"), (Ho "ElectricalConnectionInstanceW"); try discriminate.
-          rewrite !app_nil_r. reflexivity.
+        assert (H1 : forall s, In s l -> classify "electrical" false cols s = Some "ElectricalConnection").
+        { intros s Hs. unfold H5.classify, classify_b. simpl. rewrite (Hall s Hs). reflexivity. }
+        destruct (rebuild_with_all _ "ElectricalConnection" l tagged H1 Hr) as [Ha Ho].
+        rewrite Ha, (Ho "ElectricalConnectionInstance"), (Ho "ElectricalConnectionInstanceW"); try discriminate.
+        rewrite !app_nil_r. reflexivity.
     - (* continuous *)
       unfold H5.sem_rows, doc_order. simpl. destruct inst.
-      + destruct (rebuild_with_split _ (unitw "continuous") "ContinuousConnectionInstance" "ContinuousConnectionInstanceW"
-                    ltac:(discriminate) l tagged) as [Ha [Hb Ho]]; auto.
-        * intros s _. unfold H5.classify, classify_b. simpl. destruct (unitw "continuous" s); reflexivity.
-        * rewrite Ha, Hb, (Ho "ContinuousConnection"); try discriminate. simpl. rewrite app_nil_r.
-          apply (canon_canon "continuous").
+      + assert (H1 : forall s, In s l -> classify "continuous" true cols s
+                       = Some (if unitw "continuous" s then "ContinuousConnectionInstance" else "ContinuousConnectionInstanceW")).
+        { intros s _. unfold H5.classify, classify_b. simpl. destruct (unitw "continuous" s); reflexivity. }
+        destruct (rebuild_with_split _ (unitw "continuous") "ContinuousConnectionInstance" "ContinuousConnectionInstanceW"
+                    ltac:(discriminate) l tagged H1 Hr) as [Ha [Hb Ho]].
+        rewrite Ha, Hb, (Ho "ContinuousConnection"); try discriminate. simpl. rewrite app_nil_r.
+        apply (canon_canon "continuous").
       + assert (Hall : forall s, In s l -> unitw "continuous" s = true).
         { intros s Hs. pose proof (rebuild_with_In _ _ _ Hr s Hs) as Hn.
           unfold H5.classify, classify_b in Hn. simpl in Hn. destruct (unitw "continuous" s); congruence. }
-        destruct (rebuild_with_all _ "ContinuousConnection" l tagged) as [Ha Ho]; auto.
-        * intros s Hs. unfold H5.classify, classify_b. simpl. rewrite (Hall s Hs). reflexivity.
-        * rewrite Ha, (Ho "ContinuousConnectionInstance"), (Ho "ContinuousConnectionInstanceW"); try discriminate.
-          rewrite !app_nil_r. reflexivity.
+        assert (H1 : forall s, In s l -> classify "continuous" false cols s = Some "ContinuousConnection").
+        { intros s Hs. unfold H5.classify, classify_b. simpl. rewrite (Hall s Hs). reflexivity. }
+        destruct (rebuild_with_all _ "ContinuousConnection" l tagged H1 Hr) as [Ha Ho].
+        rewrite Ha, (Ho "ContinuousConnectionInstance"), (Ho "ContinuousConnectionInstanceW"); try discriminate.
+        rewrite !app_nil_r. reflexivity.
     - (* input list *)
       unfold H5.sem_rows, doc_order. simpl.
-      destruct (rebuild_with_split _ (unitw "inputlist") "Input" "InputW" ltac:(discriminate) l tagged) as [Ha [Hb _]]; auto.
-      + intros s _. unfold H5.classify, classify_b. simpl. destruct (unitw "inputlist" s); reflexivity.
-      + rewrite Ha, Hb, app_nil_r. apply (canon_canon "inputlist").
+      assert (H1 : forall s, In s l -> classify "inputlist" inst cols s = Some (if unitw "inputlist" s then "Input" else "InputW")).
+      { intros s _. unfold H5.classify, classify_b. simpl. destruct (unitw "inputlist" s); reflexivity. }
+      destruct (rebuild_with_split _ (unitw "inputlist") "Input" "InputW" ltac:(discriminate) l tagged H1 Hr) as [Ha [Hb _]].
+      rewrite Ha, Hb, app_nil_r. apply (canon_canon "inputlist").
   Qed.
 
   (* ---------------------------------------------------------------- one construct, written and loaded *)
@@ -306,7 +316,7 @@ Section Proofs.
 
   Theorem construct_roundtrip rargs wt inst :
     table_ok rargs wt = true ->
-    In (wt_kind wt) ["population"; "projection"; "electrical"; "continuous"; "inputlist"] ->
+    In (wt_kind wt) table_kinds ->
     forall rows, Forall (row_wf (wt_variants wt)) rows ->
     exists cells, write_rows wt rows = Some cells /\
       forall out, load_rows (wt_kind wt) inst (wt_names wt) rargs cells = Some out ->
@@ -330,6 +340,83 @@ Section Proofs.
     rewrite Hkind. apply proj_defaults; [apply (Hdef "weight" COne H1 eq_refl)|apply (Hdef "delay" CZero H2 eq_refl)].
   Qed.
 
+
+  (* ---------------------------------------------------------------- the writer's choice of the table *)
+  (* a row as the document holds it: the fields its variant does not carry are at their semantic default *)
+  Definition full_wf (kind : string) (r : trow F) : Prop :=
+    forall f c, mem f (vfields kind (fst r)) = false -> sem_default f = Some c -> snd r f = cval c.
+
+  Lemma seg_default_fields (fields : sem_row) f c :
+    seg_default F cval weq fields = true -> In f seg_fields -> sem_default f = Some c -> fields f = cval c.
+  Proof.
+    unfold H5.seg_default. intros H Hin Hd. repeat (apply andb_true_iff in H as [H ?]).
+    repeat match goal with h : weq _ _ = true |- _ => apply weq_spec in h end.
+    unfold seg_fields in Hin. simpl in Hin.
+    destruct Hin as [E|[E|[E|[E|[]]]]]; subst f; vm_compute in Hd; inversion Hd; subst c; assumption.
+  Qed.
+
+  Lemma segfract_false rows : segfract F cval weq rows = false -> forall r, In r rows -> seg_default F cval weq (snd r) = true.
+  Proof.
+    unfold H5.segfract. intros H r Hin. destruct (seg_default F cval weq (snd r)) eqn:E; auto.
+    exfalso. assert (X : existsb (fun r0 => negb (seg_default F cval weq (snd r0))) rows = true).
+    { apply existsb_exists. exists r. rewrite E. auto. } congruence.
+  Qed.
+
+  Lemma cols_of_some vs v : In v (map wv_name vs) -> exists w, cols_of vs v = Some (wv_cols w) /\ In w vs /\ wv_name w = v.
+  Proof.
+    unfold cols_of. induction vs as [|x t IH]; simpl; [tauto|]. intros [H|H].
+    - exists x. rewrite H, String.eqb_refl. auto.
+    - destruct (String.eqb (wv_name x) v) eqn:E.
+      + exists x. apply String.eqb_eq in E. auto.
+      + destruct (IH H) as [w [H1 [H2 H3]]]. exists w. auto.
+  Qed.
+
+  Lemma variants_not_segfract kind v : In v (variants_of kind) -> v <> "segfract".
+  Proof.
+    unfold variants_of. repeat (destruct (String.eqb kind _)); simpl; intros H E; subst v;
+      repeat (destruct H as [H|H]; [discriminate|]); exact H.
+  Qed.
+
+  Lemma mem_app s a b : mem s (a ++ b) = mem s a || mem s b.
+  Proof. induction a as [|x t IH]; simpl; auto. rewrite IH, orb_assoc. reflexivity. Qed.
+
+  Lemma strs_eqb_eq a : forall b, strs_eqb a b = true -> a = b.
+  Proof.
+    induction a as [|x a IH]; intros [|y b] H; simpl in H; try discriminate; auto.
+    apply andb_true_iff in H as [H1 H2]. apply String.eqb_eq in H1. subst. f_equal. auto.
+  Qed.
+
+  Theorem select_row_wf g kind rows wt :
+    select_table F cval weq g kind rows = Some wt -> stores_ok wt = true ->
+    Forall (full_wf kind) rows -> Forall (fun r => typed (snd r)) rows -> Forall (fun r => In (fst r) (variants_of kind)) rows ->
+    wt_kind wt = kind /\ Forall (row_wf (wt_variants wt)) rows.
+  Proof.
+    intros Hsel Hst Hfull Hty Hvar. unfold H5.select_table in Hsel. apply find_some in Hsel as [_ Hsel].
+    apply andb_true_iff in Hsel as [Hk Hfl]. apply String.eqb_eq in Hk. apply strs_eqb_eq in Hfl. split; [exact Hk|].
+    unfold stores_ok in Hst. apply andb_true_iff in Hst as [Hnames Hstore]. apply strs_eqb_eq in Hnames.
+    rewrite forallb_forall in Hstore. rewrite Forall_forall in *. intros [v fields] Hin.
+    specialize (Hfull _ Hin). specialize (Hty _ Hin). specialize (Hvar _ Hin). simpl in Hty, Hvar.
+    (* the variant is one of the table's *)
+    assert (Hv : In v (map wv_name (wt_variants wt))).
+    { rewrite Hnames, Hfl. apply filter_In. split.
+      - unfold H5.flags_of. apply in_or_app. left. unfold H5.present. apply filter_In. split; auto.
+        apply existsb_exists. exists (v, fields). simpl. rewrite String.eqb_refl. auto.
+      - apply negb_true_iff. apply String.eqb_neq. apply (variants_not_segfract kind); auto. }
+    destruct (cols_of_some _ _ Hv) as [w [Hc [Hw Hwn]]].
+    exists (wv_cols w). split; [exact Hc|]. split; [exact Hty|].
+    intros f c Hns Hd. destruct (mem f (vfields kind v)) eqn:Em.
+    - specialize (Hstore w Hw). rewrite forallb_forall in Hstore. rewrite Hwn, Hk in Hstore.
+      apply mem_In in Em. specialize (Hstore f Em). rewrite Hns in Hstore. simpl in Hstore.
+      apply andb_true_iff in Hstore as [Hstore Hnf]. apply andb_true_iff in Hstore as [Hp Hseg].
+      apply negb_true_iff in Hnf. rewrite Hfl in Hnf. unfold H5.flags_of in Hnf. rewrite mem_app in Hnf.
+      apply orb_false_iff in Hnf as [_ Hnf]. rewrite Hp in Hnf. simpl in Hnf.
+      destruct (segfract F cval weq rows) eqn:Es; [simpl in Hnf; discriminate|].
+      apply (seg_default_fields fields f c); auto.
+      + apply (segfract_false rows Es (v, fields) Hin).
+      + apply mem_In. exact Hseg.
+    - apply (Hfull f c Em Hd).
+  Qed.
+
   (* ---------------------------------------------------------------- group attributes *)
   Lemma assoc_write_attrs w fields a s :
     assoc a w = Some s ->
@@ -349,6 +436,124 @@ Section Proofs.
     destruct s; simpl in Hw; try discriminate. apply String.eqb_eq in Hw. subst. reflexivity.
   Qed.
 End Proofs.
+
+(* ------------------------------------------------------------------ over a generated table set: what the instance obligations buy *)
+Lemma all_layouts_table g wt :
+  all_layouts_ok g = true -> In wt (g_writer g) ->
+  table_ok (reader_of g (wt_kind wt)) wt = true /\ In (wt_kind wt) table_kinds.
+Proof.
+  intros H Hin. unfold all_layouts_ok in H. rewrite forallb_forall in H. specialize (H wt Hin).
+  unfold layout_ok in H. apply andb_true_iff in H as [H _]. apply andb_true_iff in H as [H1 H2].
+  split; auto. apply mem_In. exact H2.
+Qed.
+
+Theorem gen_row_roundtrip (g : h5gen) (Hall : all_layouts_ok g = true) :
+  forall (F : Type) (r32 rint : F -> F) (cval : cst -> F) (ofnat : nat -> F) (other : F) (isint : F -> bool),
+  (forall x, isint x = true -> rint (r32 x) = r32 x) -> (forall c, c <> CHalf -> rint (cval c) = cval c) ->
+  (forall c, r32 (cval c) = cval c) ->
+  forall wt v, In wt (g_writer g) -> In v (wt_variants wt) ->
+  forall (fields : string -> F) (i : nat), typed F isint fields -> defaults_ok F cval (wv_cols v) fields ->
+    decode_sem F rint cval ofnat other (wt_kind wt) (wt_names wt) (reader_of g (wt_kind wt)) i
+               (encode_row F r32 cval (wv_cols v) fields)
+    = Some (sem32_of F r32 (wt_kind wt) fields).
+Proof.
+  intros F r32 rint cval ofnat other isint H1 H2 H3 wt v Hwt Hv fields i Hty Hdef.
+  destruct (all_layouts_table g wt Hall Hwt) as [Hok _]. unfold table_ok in Hok.
+  apply andb_true_iff in Hok as [Hok Hvs]. apply andb_true_iff in Hok as [Hok _]. apply andb_true_iff in Hok as [_ Hcov].
+  rewrite forallb_forall in Hvs.
+  apply (row_roundtrip F r32 rint cval ofnat other isint H1 H2 H3); auto.
+Qed.
+
+Theorem gen_table_roundtrip (g : h5gen) (Hall : all_layouts_ok g = true) :
+  forall (F : Type) (r32 rint : F -> F) (cval : cst -> F) (ofnat : nat -> F) (other : F) (isint : F -> bool),
+  (forall x, isint x = true -> rint (r32 x) = r32 x) -> (forall c, c <> CHalf -> rint (cval c) = cval c) ->
+  (forall c, r32 (cval c) = cval c) ->
+  forall wt, In wt (g_writer g) ->
+  forall rows, Forall (row_wf F cval isint (wt_variants wt)) rows ->
+  exists cells, write_rows F r32 cval wt rows = Some cells /\ length cells = length rows /\
+    forall i, decode_table F rint cval ofnat other (wt_kind wt) (wt_names wt) (reader_of g (wt_kind wt)) i cells
+              = Some (map (fun r => sem32_of F r32 (wt_kind wt) (snd r)) rows).
+Proof.
+  intros F r32 rint cval ofnat other isint H1 H2 H3 wt Hwt rows Hwf.
+  destruct (all_layouts_table g wt Hall Hwt) as [Hok _].
+  apply (table_roundtrip F r32 rint cval ofnat other isint H1 H2 H3); auto.
+Qed.
+
+Theorem gen_construct_roundtrip (g : h5gen) (Hall : all_layouts_ok g = true) :
+  forall (F : Type) (r32 rint : F -> F) (cval : cst -> F) (ofnat : nat -> F) (other : F) (weq : F -> F -> bool) (isint : F -> bool),
+  (forall x, isint x = true -> rint (r32 x) = r32 x) -> (forall c, c <> CHalf -> rint (cval c) = cval c) ->
+  (forall c, r32 (cval c) = cval c) -> (forall x y, weq x y = true <-> x = y) ->
+  forall wt, In wt (g_writer g) ->
+  forall (inst : bool) rows, Forall (row_wf F cval isint (wt_variants wt)) rows ->
+  exists cells, write_rows F r32 cval wt rows = Some cells /\
+    forall out, load_rows F rint cval ofnat other weq (wt_kind wt) inst (wt_names wt) (reader_of g (wt_kind wt)) cells = Some out ->
+                out = sem_rows F cval weq (wt_kind wt) (map (fun r => sem32_of F r32 (wt_kind wt) (snd r)) rows).
+Proof.
+  intros F r32 rint cval ofnat other weq isint H1 H2 H3 H4 wt Hwt inst rows Hwf.
+  destruct (all_layouts_table g wt Hall Hwt) as [Hok Hk].
+  apply (construct_roundtrip F r32 rint cval ofnat other weq isint H1 H2 H3 H4); auto.
+Qed.
+
+Theorem gen_gattrs (g : h5gen) : groups_ok g = true ->
+  (forall wt, In wt (g_writer g) -> forall (fields : string -> option string) a f arg, In (a, f, arg) (gspec (wt_kind wt)) ->
+      read_attr (write_attrs (wt_gattrs wt) fields) a = fields f) /\
+  (forall (fields : string -> option string) a f arg, In (a, f, arg) (gspec "sized_population") ->
+      read_attr (write_attrs (g_sized_pop_w g) fields) a = fields f) /\
+  (forall (fields : string -> option string) a f arg, In (a, f, arg) (gspec "document") ->
+      read_attr (write_attrs (g_doc_w g) fields) a = fields f) /\
+  (forall (fields : string -> option string) a f arg, In (a, f, arg) (gspec "network") ->
+      read_attr (write_attrs (g_net_w g) fields) a = fields f).
+Proof.
+  unfold groups_ok. intro H. repeat (apply andb_true_iff in H as [H ?]).
+  repeat split.
+  - intros wt Hwt fields a f arg Hin. rewrite forallb_forall in H. specialize (H wt Hwt). unfold table_gattrs_ok in H.
+    destruct (find _ (g_reader g)) as [r|]; [|discriminate]. eapply gattrs_roundtrip; eauto.
+  - intros; eapply gattrs_roundtrip; eauto.
+  - intros; eapply gattrs_roundtrip; eauto.
+  - intros; eapply gattrs_roundtrip; eauto.
+Qed.
+
+(* the construct as the document holds it: the writer picks the table from the data (row variants present, segment /
+   fraction information), so no assumption about the table is left *)
+Theorem gen_select_roundtrip (g : h5gen) (Hall : all_layouts_ok g = true) (Hst : all_stores_ok g = true) :
+  forall (F : Type) (r32 rint : F -> F) (cval : cst -> F) (ofnat : nat -> F) (other : F) (weq : F -> F -> bool) (isint : F -> bool),
+  (forall x, isint x = true -> rint (r32 x) = r32 x) -> (forall c, c <> CHalf -> rint (cval c) = cval c) ->
+  (forall c, r32 (cval c) = cval c) -> (forall x y, weq x y = true <-> x = y) ->
+  forall kind (inst : bool) rows wt,
+  select_table F cval weq g kind rows = Some wt ->
+  Forall (full_wf F cval kind) rows -> Forall (fun r => typed F isint (snd r)) rows ->
+  Forall (fun r => In (fst r) (variants_of kind)) rows ->
+  exists cells, write_rows F r32 cval wt rows = Some cells /\
+    forall out, load_rows F rint cval ofnat other weq kind inst (wt_names wt) (reader_of g kind) cells = Some out ->
+                out = sem_rows F cval weq kind (map (fun r => sem32_of F r32 kind (snd r)) rows).
+Proof.
+  intros F r32 rint cval ofnat other weq isint H1 H2 H3 H4 kind inst rows wt Hsel Hfull Hty Hvar.
+  assert (Hin : In wt (g_writer g)) by (unfold select_table in Hsel; apply find_some in Hsel; tauto).
+  assert (Hs : stores_ok wt = true) by (unfold all_stores_ok in Hst; rewrite forallb_forall in Hst; auto).
+  destruct (select_row_wf F cval weq isint H4 g kind rows wt Hsel Hs Hfull Hty Hvar) as [Hk Hwf].
+  subst kind. apply (gen_construct_roundtrip g Hall F r32 rint cval ofnat other weq isint H1 H2 H3 H4 wt Hin inst rows Hwf).
+Qed.
+
+Theorem gen_refuse (g : h5gen) : refuse_ok g = true -> forall n, In n must_refuse -> assoc n (g_refusals g) = Some true.
+Proof.
+  unfold refuse_ok. intros H n Hn. rewrite forallb_forall in H. specialize (H n Hn).
+  destruct (assoc n (g_refusals g)) as [[|]|]; try discriminate. reflexivity.
+Qed.
+
+Theorem gen_builder (g : h5gen) : builder_ok g = true -> forall b, In b (g_builder g) ->
+  match classify_b (be_kind b) (be_inst b) (be_cols b) (be_unitw b) (be_zerod b) with
+  | None => be_variant b = "RAISE"
+  | Some v => be_variant b = v /\ be_lost b = [] /\ forall f a, In (f, a) (be_fields b) -> field_of (be_kind b) a = Some f
+  end.
+Proof.
+  unfold builder_ok. intros H b Hb. apply andb_true_iff in H as [H _]. rewrite forallb_forall in H. specialize (H b Hb).
+  unfold bentry_ok in H. destruct (classify_b _ _ _ _ _) as [v|].
+  - apply andb_true_iff in H as [H _]. apply andb_true_iff in H as [H Hf]. apply andb_true_iff in H as [Hv Hl].
+    apply String.eqb_eq in Hv. split; auto. split; [destruct (be_lost b); [reflexivity|discriminate]|].
+    intros f a Hin. unfold fields_ok in Hf. rewrite forallb_forall in Hf. specialize (Hf (f, a) Hin). simpl in Hf.
+    apply ostr_eqb_eq in Hf. exact Hf.
+  - apply String.eqb_eq. exact H.
+Qed.
 
 (* ------------------------------------------------------------------ the layouts as shipped at the pinned commit refute the
    round trip (each was confirmed on the real code; see design_notes/C05.md).  Instance: F = nat, r32 = id. *)
